@@ -118,10 +118,10 @@ def pyInt8 (s : Text) : PyM Nat :=
 def celEscapesPatSource : String :=
   "\\\\[abfnrtv\"'\\\\]|\\\\\\d{3}|\\\\x[0-9a-fA-F]{2}|\\\\u[0-9a-fA-F]{4}|\\\\U[0-9a-fA-F]{8}|."
 
-/-- `CEL_ESCAPES` as an association list (key text ↦ value text) -/
+/-- `CEL_ESCAPES` as an association list (key text ↦ value text), sorted by key -/
 def celEscapes : List (String × String) :=
-  [("\\a", "\x07"), ("\\b", "\x08"), ("\\f", "\x0c"), ("\\n", "\n"), ("\\r", "\r"), ("\\t", "\t"),
-   ("\\v", "\x0b"), ("\\\"", "\""), ("\\'", "'"), ("\\\\", "\\")]
+  [("\\\"", "\""), ("\\'", "'"), ("\\\\", "\\"), ("\\a", "\x07"), ("\\b", "\x08"), ("\\f", "\x0c"), ("\\n", "\n"),
+   ("\\r", "\r"), ("\\t", "\t"), ("\\v", "\x0b")]
 
 /-- `CEL_ESCAPES.get(match, match)` -/
 def escapesGet (m : Text) : Text :=
@@ -433,5 +433,30 @@ def digitsOf (b : Nat) (ch : Nat → Nat) : Nat → Nat → Text
 def decDigits (n : Nat) : Text := digitsOf 10 (48 + ·) 20 n
 /-- lower-case hexadecimal digits of a number below 16^16 -/
 def hexDigits (n : Nat) : Text := digitsOf 16 hexDigitChar 16 n
+
+/-! ### the lexer's literal terminals (delegated to lark / Python `re`)
+
+The regular expressions lark compiles for the `*_LIT` terminals of cel.lark, as this model and the
+theorems of `Cel.Props.C07` read them (`Cel.Bridge.Str` checks them against the regenerated copy):
+INT_LIT = `-?0x[0-9a-fA-F]+ | -?[0-9]+` (so a token text is `signText neg ++ [48,120] ++ ds` or
+`signText neg ++ ds`), UINT_LIT = INT_LIT `[uU]`, the string terminals = optional `r`/`R`, a quote
+(`'`, `"`, triple), a lazily matched body, the same quote; BYTES_LIT = `[bB]` + a string terminal. -/
+def litTerminals : List (String × String) := [
+  ("BOOL_LIT", "(?:false|true)"),
+  ("BYTES_LIT", "(?:[bB](?:[rR]?'''(?:\\\\[abfnrtv\"'\\\\]|\\\\\\d{3}|\\\\x[0-9a-fA-F]{2}|\\\\u[0-9a-fA-F]{4}|\\\\U[0-9a-fA-F]{8}|\r\n|\r|\n|.)*?'''|[rR]?\"\"\"(?:\\\\[abfnrtv\"'\\\\]|\\\\\\d{3}|\\\\x[0-9a-fA-F]{2}|\\\\u[0-9a-fA-F]{4-8}|\r\n|\r|\n|.)*?\"\"\")|[bB](?:[rR]?'(?:\\\\[abfnrtv\"'\\\\]|\\\\\\d{3}|\\\\x[0-9a-fA-F]{2}|\\\\u[0-9a-fA-F]{4}|\\\\U[0-9a-fA-F]{8}|.)*?'|[rR]?\"(?:\\\\[abfnrtv\"'\\\\]|\\\\\\d{3}|\\\\x[0-9a-fA-F]{2}|\\\\u[0-9a-fA-F]{4-8}|.)*?\"))"),
+  ("FLOAT_LIT", "(?:-?(?:[0-9])+[eE][+-]?(?:[0-9])+|-?(?:[0-9])+\\.(?:[0-9])*(?:[eE][+-]?(?:[0-9])+)?|-?(?:[0-9])*\\.(?:[0-9])+(?:[eE][+-]?(?:[0-9])+)?)"),
+  ("INT_LIT", "(?:-?0x(?:[0-9abcdefABCDEF])+|-?(?:[0-9])+)"),
+  ("MLSTRING_LIT", "(?:[rR]?'''(?:\\\\[abfnrtv\"'\\\\]|\\\\\\d{3}|\\\\x[0-9a-fA-F]{2}|\\\\u[0-9a-fA-F]{4}|\\\\U[0-9a-fA-F]{8}|\r\n|\r|\n|.)*?'''|[rR]?\"\"\"(?:\\\\[abfnrtv\"'\\\\]|\\\\\\d{3}|\\\\x[0-9a-fA-F]{2}|\\\\u[0-9a-fA-F]{4-8}|\r\n|\r|\n|.)*?\"\"\")"),
+  ("NULL_LIT", "null"),
+  ("STRING_LIT", "(?:[rR]?'(?:\\\\[abfnrtv\"'\\\\]|\\\\\\d{3}|\\\\x[0-9a-fA-F]{2}|\\\\u[0-9a-fA-F]{4}|\\\\U[0-9a-fA-F]{8}|.)*?'|[rR]?\"(?:\\\\[abfnrtv\"'\\\\]|\\\\\\d{3}|\\\\x[0-9a-fA-F]{2}|\\\\u[0-9a-fA-F]{4-8}|.)*?\")"),
+  ("UINT_LIT", "(?:-?0x(?:[0-9abcdefABCDEF])+|-?(?:[0-9])+)[uU]")]
+
+/-- token types accepted by the grammar rule `literal` (the cases of `Evaluator.literal`) -/
+def literalAlternatives : List String :=
+  ["BOOL_LIT", "BYTES_LIT", "FLOAT_LIT", "INT_LIT", "MLSTRING_LIT", "NULL_LIT", "STRING_LIT", "UINT_LIT"]
+
+/-- `Evaluator.literal` turns exactly `ValueError` (and subclasses) into an error value;
+`Phase1Transpiler.literal` defers exactly the same class to evaluation time (`literal_error`). -/
+def literalCaught : List Exc := [.valueError]
 
 end Cel.Str
